@@ -56,6 +56,7 @@ type glGroup struct {
 	hoist   bool              // give the locals declared inside a loop body their zero value before the loop (one environment shape for proofs; dead stores in Go terms)
 	devirt  map[string]string // interface type name -> the one translated type whose methods its calls resolve to
 	more    []glGroup // further packages translated into the same file (their pkgDir/prefix/funcs/externs)
+	recvArg bool              // an interface-method oracle receives the receiver value as its first argument
 	consts  map[string]string // integer constants of third-party packages (not type-checked here): "pkg.Name" -> value
 }
 
@@ -327,7 +328,8 @@ func glTranslatePart(repo string, g glGroup) (defs string, names, lemmas []strin
 		}
 	}
 	var b strings.Builder
-	for _, fn := range t.fns {
+	for i := 0; i < len(t.fns); i++ { // function literals found on the way are appended to t.fns
+		fn := t.fns[i]
 		body := t.funcBody(fn)
 		cname := "fn_" + glIdent(fn.spec.alias)
 		pos := p.fset.Position(fn.decl.Pos())
@@ -349,7 +351,7 @@ func (t *glTr) outNames(fn *glFn) []string {
 }
 
 func glIdent(s string) string {
-	return strings.NewReplacer(".", "_", "*", "", "[", "_", "]", "_", "/", "_", "-", "_").Replace(s)
+	return strings.NewReplacer(".", "_", "*", "", "[", "_", "]", "_", "/", "_", "-", "_", "$", "_").Replace(s)
 }
 func glStr(s string) string { return "\"" + strings.ReplaceAll(s, "\"", "\"\"") + "\"" }
 func glStrList(l []string) string {
@@ -595,6 +597,52 @@ func (t *glTr) calleeOf(c *ast.CallExpr) (*glFn, []ast.Expr) {
 		}
 	}
 	return nil, nil
+}
+
+// closureFn: a function literal passed for a function-typed parameter becomes a function of the generated program,
+// "<caller>$<param>", whose leading parameters are the variables it captures (in order of first use) followed by its
+// own; the binding text is "<caller>$<param>(captured, ...)". The literal may not write to what it captures.
+func (t *glTr) closureFn(c *glCtx, pname string, lit *ast.FuncLit) string {
+	alias := c.fn.spec.alias + "$" + pname
+	var caps []types.Object
+	seen := map[types.Object]bool{}
+	ast.Inspect(lit.Body, func(n ast.Node) bool {
+		if as, ok := n.(*ast.AssignStmt); ok && as.Tok != token.DEFINE {
+			for _, l := range as.Lhs {
+				if o := t.rootObj(l); o != nil && !(o.Pos() >= lit.Pos() && o.Pos() < lit.End()) {
+					t.fail(lit, "function literal assigns to the captured variable %s", o.Name())
+				}
+			}
+		}
+		id, ok := n.(*ast.Ident)
+		if !ok {
+			return true
+		}
+		obj, ok := t.p.info.Uses[id].(*types.Var)
+		if !ok || obj.IsField() || obj.Parent() == nil || obj.Parent() == t.p.pkg.Scope() || obj.Parent() == types.Universe {
+			return true
+		}
+		if obj.Pos() >= lit.Pos() && obj.Pos() < lit.End() {
+			return true
+		}
+		if !seen[obj] {
+			seen[obj] = true
+			caps = append(caps, obj)
+		}
+		return true
+	})
+	fd := &ast.FuncDecl{Name: ast.NewIdent(alias), Type: lit.Type, Body: lit.Body}
+	fn := &glFn{spec: glFunc{name: alias, alias: alias}, decl: fd, funcPars: map[string]bool{}, declared: map[string]types.Object{}}
+	var names []string
+	for _, o := range caps {
+		fn.params = append(fn.params, fn.vname(o, o.Name()))
+		fn.paramObj = append(fn.paramObj, o)
+		fn.declared[o.Name()] = o
+		names = append(names, o.Name())
+	}
+	t.collectParams(fn)
+	t.fns = append(t.fns, fn)
+	return alias + "(" + strings.Join(names, ", ") + ")"
 }
 
 // oracleArgText: a canonical text for the argument passed for a function-typed parameter: "Recv.method(receiver
@@ -934,6 +982,24 @@ func (t *glTr) expr(c *glCtx, e ast.Expr) string {
 			if arr, ok := ty.Underlying().(*types.Array); ok && isIntType(arr.Elem()) && len(x.Elts) == 0 {
 				return fmt.Sprintf("EBuiltin \"make\" [EInt %d]", arr.Len())
 			}
+			// [n]T{e0, ..., e(n-1)} / []T{e0, ...} of integers, all elements given positionally
+			if isIntSeq(ty) {
+				full := true
+				if arr, ok := ty.Underlying().(*types.Array); ok && int64(len(x.Elts)) != arr.Len() {
+					full = false
+				}
+				cur := "EBuiltin \"make\" [EInt 0]"
+				for _, el := range x.Elts {
+					if _, kv := el.(*ast.KeyValueExpr); kv {
+						full = false
+						break
+					}
+					cur = fmt.Sprintf("EBuiltin \"append1\" [%s; %s]", cur, t.expr(c, el))
+				}
+				if full {
+					return cur
+				}
+			}
 			t.fail(e, "composite literal of %s", ty)
 		}
 		given := map[string]string{}
@@ -1174,8 +1240,14 @@ func (t *glTr) callStmt(c *glCtx, x *ast.CallExpr, lhs []string) (string, int) {
 			if full[i].isFunc {
 				// the oracle parameter is dropped from the call; WHAT is passed for it is recorded as a definition of
 				// the generated file, so that theorems which interpret the oracle as that function can name the fact
+				txt := ""
+				if lit, ok := a.(*ast.FuncLit); ok {
+					txt = t.closureFn(c, full[i].name, lit)
+				} else {
+					txt = t.oracleArgText(a)
+				}
 				t.bindings = append(t.bindings, fmt.Sprintf("Definition binding_%s_%s : string * string * string :=\n  (%s, %s, %s).\n",
-					glIdent(c.fn.spec.alias), glIdent(full[i].name), glStr(callee.spec.alias), glStr(full[i].name), glStr(t.oracleArgText(a))))
+					glIdent(c.fn.spec.alias), glIdent(full[i].name), glStr(callee.spec.alias), glStr(full[i].name), glStr(txt)))
 				continue
 			}
 			ae := t.expr(c, a)
@@ -1281,6 +1353,10 @@ func (t *glTr) ifaceMethod(c *glCtx, x *ast.CallExpr) (string, string, bool) {
 	name := base.String() + "." + f.Sel.Name
 	if ix, ok := f.X.(*ast.IndexExpr); ok {
 		return name, t.expr(c, ix.Index), true
+	}
+	if t.g.recvArg {
+		// opt-in: the oracle is told WHICH value the method is called on (several readers in one function)
+		return name, t.expr(c, f.X), true
 	}
 	return name, "", true
 }
